@@ -155,6 +155,14 @@ def run(ctx):
     many = os.path.join(ctx.bdir, "many.yaml")
     open(many, "w").write(MANY_YAML)
     descs["gen-many"] = ("gen-many", many, [])
+    # a struct wrapped as a Python class, with the debug comments on: the documentation of every statement is written out
+    # (attribute values are rendered into comments; none of them may be an object's default repr)
+    sc = os.path.join(ctx.bdir, "structclass.yaml")
+    open(sc, "w").write("library: structclass\nlanguage: c\nc_header: structclass.h\n"
+                        "options:\n  debug: true\n  wrap_python: true\n  wrap_lua: false\n  PY_struct_arg: class\n  PY_array_arg: list\n"
+                        "declarations:\n- decl: struct Pair { int ifield; double dfield; };\n- decl: int sumPair(const Pair *arg)\n"
+                        "- decl: void bumpPair(Pair *arg +intent(inout))\n- decl: struct Arr { int n; double vals[3]; };\n- decl: double total(const Arr *a)\n")
+    descs["gen-structclass"] = ("gen-structclass", sc, [])
     quick = ctx.tier == "quick"
     gdir = os.path.join(ctx.bdir, "gen")
     os.makedirs(gdir, exist_ok=True)
@@ -175,7 +183,7 @@ def run(ctx):
 
     fails = []
     from concurrent.futures import ThreadPoolExecutor
-    pool = [n for n in POOL_Q + ["gen-many"] if n in descs]
+    pool = [n for n in POOL_Q + ["gen-many", "gen-structclass"] if n in descs]
     names_all = sorted(descs)
     # ---- fresh reference runs
     ref_names = pool if quick else names_all
